@@ -77,13 +77,19 @@ def read_swan(filename, dirorder=True, as_site=False):
             )
 
     if swanfile.is_grid:
-        lons = sorted(np.unique(lons))
-        lats = sorted(np.unique(lats))
+        # Place each location on the grid from its own coordinates so that files
+        # written with either longitude or latitude varying fastest are read right
+        xlocs, ylocs = np.array(lons), np.array(lats)
+        lons = sorted(np.unique(xlocs))
+        lats = sorted(np.unique(ylocs))
         arr = np.array(spec_list).reshape(
-            len(times), len(lons), len(lats), len(freqs), len(dirs)
+            len(times), len(xlocs), len(freqs), len(dirs)
         )
+        shape = (len(times), len(lats), len(lons), len(freqs), len(dirs))
+        grid = np.full(shape, np.nan, dtype=arr.dtype)
+        grid[:, np.searchsorted(lats, ylocs), np.searchsorted(lons, xlocs)] = arr
         dset = xr.DataArray(
-            data=np.swapaxes(arr, 1, 2),
+            data=grid,
             coords=OrderedDict(
                 (
                     (attrs.TIMENAME, times),
